@@ -13,6 +13,7 @@ Binding:  a real HAProxyWrappingFactory wrapping a recording protocol, connected
           The harness stops delivering after a close request, as a TCP transport does.  TLC decides.
 """
 import ipaddress
+import re
 import struct
 
 META = dict(
@@ -233,18 +234,247 @@ def build(kind, rng):
 
 
 def make_stream(kind, rng):
-    hdr, c = build(kind, rng)
+    """A stream of one of the named kinds (bytes only; its abstract description is lexed from the bytes)."""
+    hdr, _ = build(kind, rng)
+    return finish(hdr, kind, rng)
+
+
+def finish(hdr, kind, rng):
     n = rng.choice([0, 1, 3, 8, 20])
     payload = bytes((rng.randrange(256)) for _ in range(n))
     if rng.random() < 0.3 and n:
         payload = rng.choice([b"PROXY ", b"\r\n", SIG])[:n].ljust(n, b"x")   # payload that looks like a header
-    cfg = dict(c)
-    cfg.update(kind=kind, rpeer=norm(*RPEER), rhost=norm(*RHOST))
-    if c["valid"]:
-        cfg.update(hlen=len(hdr), payload=list(payload), total=len(hdr) + len(payload))
+    stream = hdr + payload
+    if stream[:1] == b"P" and b"\r\n" not in stream and len(stream) < 108:
+        stream = stream.ljust(120, b"y")      # a v1 stream without CRLF must be long enough to be decidable
+    if stream[:1] == SIG[:1] and len(stream) < 16:
+        stream = stream.ljust(16, b"\0")
+    return stream, describe(stream, kind)
+
+
+# --------------------------------------------------------------------------- lexer: bytes -> abstract header fields
+
+IP4_RE = re.compile(rb"^(0|[1-9][0-9]{0,2})(\.(0|[1-9][0-9]{0,2})){3}$")
+IP6_RE = re.compile(rb"^[0-9a-fA-F:]{2,39}$")
+PORT_RE = re.compile(rb"^(0|[1-9][0-9]{0,4})$")
+
+
+def tok_class(tok):
+    if tok in (b"TCP4", b"TCP6", b"UNKNOWN"):
+        return tok.decode()
+    if tok == b"":
+        return "empty"
+    if PORT_RE.match(tok) and int(tok) <= 65535:
+        return "port"
+    if IP4_RE.match(tok):
+        try:
+            ipaddress.IPv4Address(tok.decode())
+            return "ip4"
+        except ValueError:
+            return "junk"
+    if IP6_RE.match(tok):
+        try:
+            ipaddress.IPv6Address(tok.decode())
+            return "ip6"
+        except ValueError:
+            return "junk"
+    return "junk"
+
+
+def describe(stream, kind=""):
+    """Lex the would-be header: which fields stand where (not whether the header is valid: the spec decides that)."""
+    v2 = dict(sigbad=0, vn=0, cn=0, fn=0, pn=0, len=0)
+    v1 = dict(w=0, line=0, toks=[])
+    src = dst = NA
+    if stream[:1] == SIG[:1]:
+        ver = 2
+        v2["sigbad"] = next((i + 1 for i in range(12) if stream[i:i + 1] != SIG[i:i + 1]), 0)
+        b13, b14 = stream[12], stream[13]
+        ln = struct.unpack("!H", stream[14:16])[0]
+        v2.update(vn=b13 >> 4, cn=b13 & 15, fn=b14 >> 4, pn=b14 & 15, len=ln)
+        hend = 16 + ln
+        blk = stream[16:hend]
+        t = {1: "TCP", 2: "UDP"}.get(b14 & 15)
+        if t and b14 >> 4 == 1 and len(blk) >= 12:
+            sp, dp = struct.unpack("!2H", blk[8:12])
+            src, dst = norm(t, str(ipaddress.IPv4Address(blk[0:4])), sp), norm(t, str(ipaddress.IPv4Address(blk[4:8])), dp)
+        elif t and b14 >> 4 == 2 and len(blk) >= 36:
+            sp, dp = struct.unpack("!2H", blk[32:36])
+            src, dst = norm(t, str(ipaddress.IPv6Address(blk[0:16])), sp), norm(t, str(ipaddress.IPv6Address(blk[16:32])), dp)
+        elif t and b14 >> 4 == 3 and len(blk) >= 216:
+            src = ["UNIX", blk[0:108].rstrip(b"\0").decode("latin-1"), ""]
+            dst = ["UNIX", blk[108:216].rstrip(b"\0").decode("latin-1"), ""]
+    elif stream[:1] == b"P":
+        ver = 1
+        v1["w"] = next((i + 1 for i in range(6) if stream[i:i + 1] != b"PROXY "[i:i + 1]), 0)
+        idx = stream.find(b"\r\n")
+        v1["line"] = idx + 2 if idx >= 0 else 0
+        body = stream[6:idx] if idx >= 0 else stream[6:]
+        pos = 7
+        toks = []
+        for tok in body.split(b" "):
+            toks.append((tok, pos))
+            pos += len(tok) + 1
+        v1["toks"] = [{"cls": tok_class(t), "pos": p} for t, p in toks[:8]]
+        if len(toks) >= 5 and toks[0][0] in (b"TCP4", b"TCP6"):
+            cl = [tok_class(t) for t, _ in toks[:5]]
+            if cl[1] in ("ip4", "ip6") and cl[2] in ("ip4", "ip6") and cl[3] == cl[4] == "port":
+                src = norm("TCP", toks[1][0].decode(), int(toks[3][0]))
+                dst = norm("TCP", toks[2][0].decode(), int(toks[4][0]))
+        hend = v1["line"] or len(stream)
     else:
-        cfg.update(hlen=0, payload=[], total=len(hdr) + len(payload))
-    return hdr + payload, cfg
+        ver = 0
+        hend = len(stream)
+    return dict(kind=kind, ver=ver, v2=v2, v1=v1, src=src, dst=dst, rpeer=norm(*RPEER), rhost=norm(*RHOST),
+                rest=list(stream[hend:]), total=len(stream))
+
+
+def classify(cfg):
+    """Python mirror of ProxyHdr.tla's classification -- used ONLY to name fingerprints and to aim the binding
+    self-test's corruptions; the verdict is TLC's."""
+    v2, v1 = cfg["v2"], cfg["v1"]
+    alen = {1: 12, 2: 36, 3: 216}
+    if cfg["ver"] == 2:
+        spec = v2["fn"] in (1, 2, 3) and v2["pn"] in (1, 2)
+        if v2["sigbad"]:
+            bad, why = v2["sigbad"], "signature"
+        elif v2["vn"] != 2:
+            bad, why = 13, "version"
+        elif v2["cn"] not in (0, 1):
+            bad, why = 13, "command"
+        elif v2["cn"] == 0:
+            bad, why = 0, "LOCAL"
+        elif v2["fn"] > 3:
+            bad, why = 14, "family"
+        elif v2["pn"] > 2:
+            bad, why = 14, "protocol"
+        elif spec and v2["len"] < alen[v2["fn"]]:
+            bad, why = 16, "short-length"
+        else:
+            bad, why = 0, ("PROXY-addresses" if spec else "PROXY-unspec")
+        dec = 16 if (v2["sigbad"] or v2["vn"] != 2) else 16 + v2["len"]
+        return dict(valid=bad == 0, bad=bad, dec=dec, hlen=16 + v2["len"], hasaddr=v2["cn"] == 1 and spec, why=why)
+    if cfg["ver"] == 1:
+        toks = v1["toks"]
+        nt = len(toks)
+        over = v1["line"] == 0 or v1["line"] > 107
+        why = ""
+        if nt == 0:
+            j = 1
+            why = "missing-field"
+        elif toks[0]["cls"] == "UNKNOWN":
+            j = 0
+            why = "UNKNOWN"
+        elif toks[0]["cls"] not in ("TCP4", "TCP6"):
+            j = 1
+            why = "protocol-word"
+        else:
+            a = "ip4" if toks[0]["cls"] == "TCP4" else "ip6"
+            want = [toks[0]["cls"], a, a, "port", "port"]
+            mism = [i for i in range(1, 5) if i >= nt or toks[i]["cls"] != want[i]]
+            if mism:
+                j = min(mism[0] + 1, nt + 1)
+                why = "missing-field" if mism[0] >= nt else ("address-field" if mism[0] in (1, 2) else "port-field")
+            elif nt > 5:
+                j, why = 6, "extra-field"
+            else:
+                j, why = 0, toks[0]["cls"]
+        tb = 0 if j == 0 else (toks[j - 1]["pos"] if j <= nt else (v1["line"] - 1 if v1["line"] else 106))
+        if v1["w"]:
+            bad, why = v1["w"], "PROXY-word"
+        elif over:
+            if tb and tb <= 106:
+                bad = tb
+            else:
+                bad, why = 106, "overlong"
+        else:
+            bad = tb
+        return dict(valid=bad == 0, bad=bad, dec=108 if over else v1["line"], hlen=v1["line"],
+                    hasaddr=nt >= 1 and toks[0]["cls"] in ("TCP4", "TCP6"), why=why)
+    return dict(valid=False, bad=1, dec=16, hlen=0, hasaddr=False, why="no-header")
+
+
+# --------------------------------------------------------------------------- systematic generators (bytes)
+
+def v2_stream(rng, b13, b14, lenmode="exact", sig=SIG):
+    fam = b14 >> 4
+    size = {1: 12, 2: 36, 3: 216}.get(fam, 0)
+    if fam in (1, 2, 3):
+        blk, _, _ = v2_block(rng, (fam << 4) | 1)
+    else:
+        blk = bytes(rng.randrange(256) for _ in range(rng.choice([0, 5, 12])))
+    if lenmode == "tlv":
+        blk += tlvs(rng) or b"\x04\x00\x01\x00"
+    elif lenmode == "short" and size:
+        blk = blk[:rng.choice([0, size - 1, rng.randrange(size)])]
+    elif lenmode == "zero":
+        blk = b""
+    return sig + bytes([b13, b14]) + struct.pack("!H", len(blk)) + blk
+
+
+IP4_OK = ["1.2.3.4", "0.0.0.0", "255.255.255.255", "127.0.0.1", "10.20.30.40"]
+IP6_OK = ["::1", "::", "2001:db8::8:800:200c:417a", "ffff:ffff:ffff:ffff:ffff:ffff:ffff:ffff", "1:2:3:4:5:6:7:8", "fe80::1"]
+ADDR_BAD = ["256.1.1.1", "1.2.3", "1.2.3.4.5", "01.2.3.4", "1.2.3.4x", "1.2.3.", "::g", ":::", "1::2::3", "12345::", "1:2:3:4:5:6:7:8:9",
+            "abc", "", "-1.2.3.4", "1,2,3,4"]
+PORT_OK = ["0", "1", "80", "8080", "65535"]
+PORT_BAD = ["65536", "99999", "100000", "-1", "+80", "0x50", "", "8 0"]
+WORDS_BAD = ["tcp4", "TCP5", "TCP", "UDP4", "UNKNOWNX", "TCP44", "", "unknown", "TCP4\t"]
+
+
+def v1_line(fields):
+    return ("PROXY " + " ".join(fields) + "\r\n").encode("latin-1")
+
+
+def v1_systematic(rng):
+    """(label, header bytes): every protocol word x address family, every field replaced by every malformed form,
+    cross-family addresses, missing / extra / empty fields."""
+    out = []
+    ok = {"TCP4": IP4_OK, "TCP6": IP6_OK}
+    for p in ("TCP4", "TCP6"):
+        other = IP6_OK if p == "TCP4" else IP4_OK
+        for a in ok[p]:
+            out.append(("v1/%s" % p, v1_line([p, a, rng.choice(ok[p]), rng.choice(PORT_OK), rng.choice(PORT_OK)])))
+        for q in PORT_OK:
+            out.append(("v1/%s" % p, v1_line([p, rng.choice(ok[p]), rng.choice(ok[p]), q, rng.choice(PORT_OK)])))
+        base = lambda: [p, rng.choice(ok[p]), rng.choice(ok[p]), rng.choice(PORT_OK), rng.choice(PORT_OK)]
+        for i in (1, 2):
+            for badv in ADDR_BAD + other[:3] + PORT_OK[:2]:
+                f = base()
+                f[i] = badv
+                out.append(("v1/%s-bad-address" % p, v1_line(f)))
+        for i in (3, 4):
+            for badv in PORT_BAD + ok[p][:1]:
+                f = base()
+                f[i] = badv
+                out.append(("v1/%s-bad-port" % p, v1_line(f)))
+        for n in range(1, 5):
+            out.append(("v1/%s-missing" % p, v1_line(base()[:n])))
+        out.append(("v1/%s-extra" % p, v1_line(base() + [rng.choice(["x", "1", "", "TLV"])])))
+        out.append(("v1/%s-trailing-space" % p, v1_line(base() + [""])))
+    for w in WORDS_BAD:
+        out.append(("v1/bad-protocol-word", v1_line([w, "1.2.3.4", "5.6.7.8", "1", "2"])))
+    for extra in ([], ["anything", "goes  here"], ["1.2.3.4", "5.6.7.8", "1", "2"], [""]):
+        out.append(("v1/UNKNOWN", v1_line(["UNKNOWN"] + extra)))
+    return out
+
+
+def v2_systematic(rng):
+    out = []
+    for b14 in range(256):                         # every family/protocol byte, under PROXY and under LOCAL
+        out.append(("v2/PROXY-b14", v2_stream(rng, 0x21, b14)))
+        if b14 % 3 == 0:
+            out.append(("v2/LOCAL-b14", v2_stream(rng, 0x20, b14, rng.choice(["exact", "zero", "tlv"]))))
+    for b13 in range(256):                         # every version/command byte
+        out.append(("v2/b13", v2_stream(rng, b13, rng.choice([0x11, 0x21, 0x00, 0x31]))))
+    for fam in (1, 2, 3):                          # declared length below / at / above the address block
+        for pn in (0, 1, 2):
+            for mode in ("short", "short", "zero", "exact", "tlv"):
+                out.append(("v2/length", v2_stream(rng, 0x21, (fam << 4) | pn, mode)))
+    for i in range(12):
+        for c in (0, 0x0A, 0x0D, 0x51, 0xFF):
+            if c != SIG[i]:
+                out.append(("v2/signature", v2_stream(rng, 0x21, 0x11, sig=SIG[:i] + bytes([c]) + SIG[i + 1:])))
+    return out
 
 
 # --------------------------------------------------------------------------- real objects
@@ -310,45 +540,33 @@ def run_case(stream, cfg, cuts):
 
 def fingerprint(t, rej):
     cfg = t["cfg"]
+    c = classify(cfg)
     ev = t["ev"][rej.reached] if rej.reached < len(t["ev"]) else None
     if ev is None:
         return "end-of-trace"
     before = sum(e["k"] for e in t["ev"][:rej.reached])
     after = before + ev["k"]
-    who = "split"
-    # which run misbehaved: the split run (this delivery) or the one-piece run of the same prefix
+
     def wrong(o, m, n):
-        if cfg["valid"]:
-            exp = cfg["payload"][max(m, cfg["hlen"]) - cfg["hlen"]:max(n - cfg["hlen"], 0)] if n > cfg["hlen"] else []
+        if c["valid"]:
+            exp = cfg["rest"][max(m, c["hlen"]) - c["hlen"]:max(n - c["hlen"], 0)] if n > c["hlen"] else []
             if o["close"] != "no":
                 return "closes-valid-stream"
             if o["app"] != exp:
                 return "wrong-bytes-to-application"
-            if n >= cfg["hlen"]:
-                ep, eh = (cfg["src"], cfg["dst"]) if cfg["hasaddr"] else (cfg["rpeer"], cfg["rhost"])
+            if n >= c["hlen"]:
+                ep, eh = (cfg["src"], cfg["dst"]) if c["hasaddr"] else (cfg["rpeer"], cfg["rhost"])
                 if o["peer"] != ep or o["host"] != eh:
                     return "wrong-addresses"
             return None
-        if o["app"]:
-            return "invalid-stream-bytes-reach-application"
-        if o["close"] != "no" and n < cfg["bad"]:
+        if o["app"] or (o["close"] == "no" and n >= c["dec"]):
+            return "invalid-stream-accepted"
+        if o["close"] != "no" and n < c["bad"]:
             return "closes-before-invalid-byte"
-        if o["close"] == "no" and n >= cfg["dec"]:
-            return "invalid-stream-not-closed"
         return None
-    w = wrong(ev, before, after)
-    if w is None:
-        w1 = wrong(ev["one"], 0, after)
-        who = "onepiece"
-        w = w1 or "other"
-    need = 16 if cfg["ver"] == 2 else 8
-    n_first = after if who == "onepiece" else (after if before == 0 else need)
-    if n_first < need and w in ("closes-valid-stream", "closes-before-invalid-byte"):
-        # one root cause for every header kind: the very first delivery is shorter than the wrapper's fixed minimum
-        return "HAProxyProtocolWrapper.dataReceived/%s/first-delivery<%d/%s" % (cfg["kind"].split("/")[0], need, w)
-    if w in ("invalid-stream-bytes-reach-application", "invalid-stream-not-closed"):
-        return "HAProxyProtocolWrapper.dataReceived/%s/invalid-stream-accepted" % cfg["kind"]
-    return "HAProxyProtocolWrapper.dataReceived/%s/%s" % (cfg["kind"], w)
+    # which run misbehaved: the split run (this delivery) or the one-piece run of the same prefix
+    w = wrong(ev, before, after) or wrong(ev["one"], 0, after) or "other"
+    return "HAProxyProtocolWrapper.dataReceived/v%d/%s/%s" % (cfg["ver"], c["why"], w)
 
 
 def report(ctx, traces, rej):
@@ -366,6 +584,7 @@ def mutate(t, rng):
     if not evs:
         return None
     cfg = t["cfg"]
+    c = classify(cfg)
     i = rng.randrange(len(evs))
     e = evs[i]
     after = sum(x["k"] for x in evs[:i + 1])
@@ -374,11 +593,11 @@ def mutate(t, rng):
         e["app"][0] = (e["app"][0] + 1) % 256     # a different byte reached the application
     elif r < 0.5:
         e["app"] = e["app"] + [7]                 # an extra byte reached the application
-    elif r < 0.65 and cfg["valid"] and e["close"] == "no":
+    elif r < 0.65 and c["valid"] and e["close"] == "no":
         e["close"] = "lose"                       # a valid stream got closed
-    elif r < 0.8 and not cfg["valid"] and e["close"] != "no" and after >= cfg["dec"]:
+    elif r < 0.8 and not c["valid"] and e["close"] != "no" and after >= c["dec"]:
         e["close"] = "no"                         # an invalid stream was not closed in time
-    elif cfg["valid"] and cfg["hasaddr"] and after >= cfg["hlen"]:
+    elif c["valid"] and c["hasaddr"] and after >= c["hlen"]:
         e["peer"] = [e["peer"][0], e["peer"][1], e["peer"][2] + "0"]   # wrong source port seen
     elif e["one"]["app"]:
         e["one"]["app"] = e["one"]["app"][:-1]    # the one-piece run lost a byte
@@ -388,13 +607,13 @@ def mutate(t, rng):
 
 
 def nontrivial(t):
-    return len(t["ev"]) >= 2 or not t["cfg"]["valid"]
+    return len(t["ev"]) >= 2 or not classify(t["cfg"])["valid"]
 
 
 def run(ctx):
     from harness.core import MachineryError
 
-    r = ctx.mc("ProxyHdrMC", "ProxyHdrMC.cfg")
+    r = ctx.mc("ProxyHdrMC", ctx.pick("ProxyHdrMC.cfg", "ProxyHdrMC.thorough.cfg"))
     if not r.ok:
         raise MachineryError("ProxyHdr spec violates its own invariants: " + r.error)
     ctx.require_actions("ProxyHdrMC", ["DeliverValidPartial", "DeliverValidLast", "DeliverInvalidOpen",
@@ -403,27 +622,49 @@ def run(ctx):
     rng = ctx.rng
     traces = []
     kinds = VALID_KINDS + INVALID_KINDS
-    reps = ctx.pick(1, 6)
+
+    def cuts_for(stream, cfg):
+        c = classify(cfg)
+        return min(len(stream) - 1, (c["hlen"] if c["valid"] else c["dec"]) + 3)
+
+    reps = ctx.pick(1, 4)
     for kind in kinds:
         for _ in range(reps):
             stream, cfg = make_stream(kind, rng)
-            region = min(len(stream) - 1, (cfg["hlen"] if cfg["valid"] else cfg["dec"]) + 3)
-            for c in range(1, region + 1):       # every single split point of the header region
+            for c in range(1, cuts_for(stream, cfg) + 1):       # every single split point of the header region
                 traces.append(run_case(stream, cfg, [c]))
             traces.append(run_case(stream, cfg, []))
             traces.append(run_case(stream, cfg, [1] * len(stream)))
-    ctx.exhaustive = False   # every single split of every kind is enumerated, field values and multi-splits are sampled
-    ctx.extra["exhaustive_note"] = "every single split point of the header region of every kind (field values sampled); multi-splits sampled"
-    for _ in range(ctx.pick(1500, 60000)):
-        kind = rng.choice(kinds)
-        stream, cfg = make_stream(kind, rng)
-        ncut = rng.choice([1, 2, 2, 3, 5])
-        big = rng.random() < 0.5      # keep the first delivery large so later cuts get exercised too
-        cuts = []
-        if big:
-            cuts.append(rng.randint(16, max(16, min(len(stream), 40))))
-        for _ in range(ncut):
-            cuts.append(rng.choice([1, 2, 3, 5, 8, 13, 21, 50, 100]))
+    # systematic field coverage: every value of the v2 version/command and family/protocol bytes, declared lengths
+    # around every address-block size, every signature byte damaged; v1: every protocol word, every field replaced by
+    # every malformed form, cross-family, missing/extra/empty fields.  The spec classifies each of them.
+    nsys = 0
+    for rep in range(ctx.pick(1, 3)):
+        for label, hdr in v2_systematic(rng) + v1_systematic(rng):
+            stream, cfg = finish(hdr, label, rng)
+            nsys += 1
+            region = cuts_for(stream, cfg)
+            plans = [[], [rng.randint(1, region)], [rng.randint(1, region), rng.choice([1, 2, 5, 13])]]
+            if not ctx.quick:
+                plans.append([1] * min(len(stream), 120))
+            for cuts in plans:
+                traces.append(run_case(stream, cfg, cuts))
+    ctx.extra["systematic_headers"] = nsys
+    ctx.exhaustive = False   # every single split of every named kind and every value of the enumerated header fields; field contents and multi-splits sampled
+    ctx.extra["exhaustive_note"] = ("every single split point of the header region of every named kind; every value of v2 byte 13 and byte 14, "
+                                    "every v1 field x every malformed form (one to three splits each); field contents and multi-splits sampled")
+    for _ in range(ctx.pick(1000, 40000)):
+        r = rng.random()
+        if r < 0.5:
+            stream, cfg = make_stream(rng.choice(kinds), rng)
+        elif r < 0.8:                      # random v2 bytes 13/14 biased to the interesting nibbles, random length mode
+            b13 = rng.choice([0x20, 0x21, 0x21, 0x21, 0x22, 0x2F, 0x11, 0x31, rng.randrange(256)])
+            b14 = rng.choice([(rng.choice([0, 1, 2, 3, 4, 15]) << 4) | rng.choice([0, 1, 2, 3, 15]), rng.randrange(256)])
+            stream, cfg = finish(v2_stream(rng, b13, b14, rng.choice(["exact", "exact", "tlv", "short", "zero"])), "v2/random-fields", rng)
+        else:
+            label, hdr = rng.choice(v1_systematic(rng))
+            stream, cfg = finish(hdr, label, rng)
+        cuts = [rng.choice([1, 2, 3, 5, 8, 13, 21, 50, 100]) for _ in range(rng.choice([1, 2, 2, 3, 5]))]
         traces.append(run_case(stream, cfg, cuts))
     for t in traces:
         ctx.note_trace(t, nontrivial=nontrivial(t))
